@@ -110,6 +110,7 @@ def run(tier, seed):
     res.rule = ("TLC-enumerated cyclic digraphs (<=4 nodes, <=6 edges, every edge on an s-t walk) with planted integer walk "
                 "superpositions x MinFlowDecompCycles configurations; Peel adversary (walks) bounded by the observed count; "
                 "scaling families x{1, 0.1, 0.5, 3} validated by Trace_Groups")
+    P.attribute_presolve(res, known)
     return res.finish(known, require_classes=["solved", "node_mode", "with_constraints", "with_self_loop",
                                               "scaling_groups", "adversary_minimality_runs"])
 
